@@ -1852,6 +1852,24 @@ fn verify_nsec(
         };
     }
 
+    // An empty non-terminal owns no NSEC record. It is proven to exist, without any records, by the
+    // NSEC record that spans the query name and has a next domain name below it. (RFC 4592 2.2.2)
+    if nsecs.iter().any(|(name, nsec_data)| {
+        let next_domain_name = nsec_data.next_domain_name();
+        *name < &query.name
+            && &query.name < next_domain_name
+            && query.name.zone_of(next_domain_name)
+    }) {
+        return if response_code == ResponseCode::NoError && !have_answer {
+            nsec1_yield(Proof::Secure, "empty non-terminal")
+        } else {
+            nsec1_yield(
+                Proof::Bogus,
+                "nxdomain response or answers present for an empty non-terminal",
+            )
+        };
+    }
+
     let Some((covering_nsec_name, covering_nsec_data)) =
         find_nsec_covering_record(soa_name, &query.name, nsecs)
     else {
@@ -2802,6 +2820,43 @@ mod test {
                         &rdataNSEC::new(Name::from_ascii("example.")?, [A, NSEC, RRSIG],),
                     ),
                 ],
+            ),
+            Proof::Bogus
+        );
+
+        Ok(())
+    }
+
+    // These test cases prove that no record exists at an empty non-terminal
+    #[test]
+    fn nsec_no_data_error_empty_non_terminal() -> Result<(), ProtoError> {
+        subscribe();
+
+        let nsec_name = Name::from_ascii("example.")?;
+        let nsec = rdataNSEC::new(
+            Name::from_ascii("a.ent.example.")?,
+            [DNSKEY, NS, NSEC, RRSIG, SOA],
+        );
+
+        assert_eq!(
+            verify_nsec(
+                &Query::new(Name::from_ascii("ent.example.")?, A),
+                Some(&Name::from_ascii("example.")?),
+                ResponseCode::NoError,
+                &[],
+                &[(&nsec_name, &nsec)],
+            ),
+            Proof::Secure
+        );
+
+        // a.ent.example. is not an empty non-terminal, its own NSEC record is needed.
+        assert_eq!(
+            verify_nsec(
+                &Query::new(Name::from_ascii("a.ent.example.")?, MX),
+                Some(&Name::from_ascii("example.")?),
+                ResponseCode::NoError,
+                &[],
+                &[(&nsec_name, &nsec)],
             ),
             Proof::Bogus
         );
